@@ -227,12 +227,21 @@ def main(run):
 
     # ------------------------------------------------------------ cases
     exc, exe = [], []        # (line, kind, honest)
-    for ln in vlib.read_corpus("C07"):
+    replay_only = None
+    if getattr(run, "replay", None):
+        # --replay <file>: run only the case named in a replay file written by this check
+        for ln in open(run.replay):
+            if ln.startswith("case: "):
+                replay_only = ln[len("case: "):].strip()
+        if replay_only is None:
+            raise vlib.BuildError("no 'case:' line in " + run.replay)
+        (exc if replay_only.startswith("exc") else exe).append((replay_only, "replay", True))
+    for ln in ([] if replay_only else vlib.read_corpus("C07")):
         (exc if ln.startswith("exc") else exe).append((ln, "corpus", True))
-    for name, ins in G.templates():
+    for name, ins in ([] if replay_only else G.templates()):
         exc.append((G.exc_line(ins), "template", True))
         exc.append((G.exc_line(ins, mid0=65533), "template", True))      # mid wraps inside the case
-    for i in range(1500 if quick else 40000):
+    for i in range(0 if replay_only else 1500 if quick else 40000):
         honest = r.random() < 0.6
         maxr = r.choice([4, 4, 4, 1, 2, 7])
         exc.append((G.exc_line(G.random_exc(r, honest, maxr), maxr=maxr,
@@ -240,17 +249,17 @@ def main(run):
                                tok0=r.choice([0, 0, 254, 65534])),
                     "random-honest" if honest else "random-arbitrary", honest))
     nfate = 5 if quick else 7
-    for kind in ("real", "rfc"):
+    for kind in (() if replay_only else ("real", "rfc")):
         for sty in G.STYLES:
             for fates in G.exhaustive_fates(nfate, 1500):
                 exe.append((G.exe_line(kind, [(sty, 1, 0)], fates, seed=3), "exhaustive-" + kind, True))
-    if not quick:
+    if not quick and not replay_only:
         for kind in ("real", "rfc"):
             for sty in (1, 3):
                 for fates in G.exhaustive_fates(8, 1900):
                     exe.append((G.exe_line(kind, [(sty, 0, 0)], fates, seed=5, adelay=2500),
                                 "exhaustive8-" + kind, True))
-    for i in range(1200 if quick else 30000):
+    for i in range(0 if replay_only else 1200 if quick else 30000):
         kind = r.choice(["real", "real", "rfc"])
         nreq = r.choice([1, 2, 2, 3, 4])
         reqs = [(r.choice(G.STYLES), r.choice([1, 1, 1, 0]), r.choice([0, 0, 5, 400, 1800])) for _ in range(nreq)]
